@@ -491,6 +491,12 @@ func endpoints() []Endpoint {
 		{Name: "prof_series", Api: "profiles", Build: func(w Window) (*http.Request, int64, int64) {
 			return post(prof.QuerierService_Series_FullMethodName, &prof.SeriesRequest{Matchers: []string{`{a="b"}`}, LabelNames: []string{"a"}, Start: ms(w.FromNs), End: ms(w.ToNs)}), 0, 0
 		}},
+		{Name: "prof_series_two", Api: "profiles", Build: func(w Window) (*http.Request, int64, int64) {
+			return post(prof.QuerierService_Series_FullMethodName, &prof.SeriesRequest{Matchers: []string{`{a="b"}`, `{job="x2"}`}, Start: ms(w.FromNs), End: ms(w.ToNs)}), 0, 0
+		}},
+		{Name: "prof_label_names_two", Api: "profiles", Build: func(w Window) (*http.Request, int64, int64) {
+			return post(prof.QuerierService_LabelNames_FullMethodName, &v1.LabelNamesRequest{Matchers: []string{`{a="b"}`, `{job="x2"}`}, Start: ms(w.FromNs), End: ms(w.ToNs)}), 0, 0
+		}},
 		{Name: "prof_series_nomatch", Api: "profiles", Build: func(w Window) (*http.Request, int64, int64) {
 			return post(prof.QuerierService_Series_FullMethodName, &prof.SeriesRequest{Start: ms(w.FromNs), End: ms(w.ToNs)}), 0, 0
 		}},
